@@ -16,6 +16,7 @@ RULE = ("metamorphic pairs through the real readers: dataset A has a set K of ca
 RULE += " " + 'Part fss: fractions skill score (spatial neighbourhoods of 5-10 clustered stations, and temporal) with whole times / lead times / runs / scattered cases marked missing: marked == deleted while the coordinates are unchanged, and equal to an independent neighbourhood-fraction evaluation with missing cases dropped.'
 RULE += " " + 'Aggregators other than the mean on obs/fcst scores; temporal fss reference with station outages; contingency-table conservation contract on droc/droc0/performance; negative values with a zero climatology.'
 RULE += " " + 'Rounds 9-10: aggregators on obs/fcst/mae/bias over slices with no valid case.'
+RULE += " " + 'Rounds 11-12: averages over several thresholds where one threshold has no valid case in a slice.'
 ASSUMPTIONS = ["a text value above 1e30 and the token 'inf' are outside the documented encodings and not generated",
                "deleting a row from one input is equivalent, for a fair comparison, to the case being absent for all inputs"]
 REQUIRED_COUNTERS = ["pairs", "rows_compared", "allmissing_rows", "would_change", "clim_pairs", "contract:get_scores"]
